@@ -37,10 +37,11 @@ package object
 //gvc:end
 
 // Blob.Reader: a fresh reader positioned at the start of the blob's content
-// (spec_objdata / spec_objlen: the stored bytes; trusted storage behaviour).
+// (spec_objdata / spec_objlen: the stored bytes of the object with that id;
+// trusted storage behaviour).
 //gvc:func (*Blob).Reader
 //gvc:  trusted
 //gvc:  params b
 //gvc:  results r err
-//gvc:  ensures fresh: err == nil ==> r != nil && r.#pos == 0 && r.#data == spec_objdata(b) && r.#n == spec_objlen(b) && 0 <= r.#n && r.#n <= 0x4000000000000000
+//gvc:  ensures fresh: err == nil ==> r != nil && r.#pos == 0 && r.#data == spec_objdata(keyid(b.Hash)) && r.#n == spec_objlen(keyid(b.Hash)) && 0 <= r.#n && r.#n <= 0x4000000000000000
 //gvc:end
